@@ -25,7 +25,7 @@ from .core import HarnessError
 REPO = os.environ.get("VERIF_REPO", "/repo")
 VERIF = os.path.dirname(os.path.dirname(os.path.abspath(__file__)))
 PYTHON = "/venv/bin/python"
-HASH_SEEDS = ["0", "1", "4242", "31337"]
+HASH_SEEDS = ["0", "1", "4242", "31337", "2", "3", "977", "65537"]
 # interpreter configuration is part of the environment the simulator varies: workers started with one of these hash
 # seeds also run with PYTHONOPTIMIZE=1 (asserts compiled away); the flag is a function of the hash seed so that a
 # replay file (which records the hash seed) reproduces it
@@ -148,7 +148,15 @@ def run_tasks(tasks, n_workers=None, deadline=None, progress=None, prepare=None)
     """
     n_workers = n_workers or int(os.environ.get("VERIF_WORKERS", "0")) or (os.cpu_count() or 4)
     n_workers = max(1, min(n_workers, len(tasks)))
-    seeds = [HASH_SEEDS[i % len(HASH_SEEDS)] for i in range(n_workers)]
+    # every hash seed a task pins gets an interpreter of its own; the remaining workers rotate through the pool
+    pinned = []
+    for task in tasks:
+        hs = task.get("hash_seed")
+        if hs is not None and str(hs) not in pinned:
+            pinned.append(str(hs))
+    n_workers = max(n_workers, len(pinned))
+    rotation = [hs for hs in HASH_SEEDS if hs not in pinned] or list(HASH_SEEDS)
+    seeds = pinned + [rotation[i % len(rotation)] for i in range(n_workers - len(pinned))]
     queues = {hs: queue.Queue() for hs in set(seeds)}
     anyq = queue.Queue()
     for idx, task in enumerate(tasks):
